@@ -134,7 +134,7 @@ CLAIMED = {
               "corruption class = open findings D08 (colliding keys), D09 (frozenset/deque payload), D10 (rank>=2 object arrays), D26 (property values), C04-F1, F4 (scalar subclasses, surrogate pairs); "
               "C04_dump_pure holds by type. Everything else in the guard (dict family, arrays, user classes, sharing) is correspondence-only: the model's normalised schema AND its predicted loaded value -- including the "
               "predicted corruption or exception class -- are compared with /repo on >= 340 generated values per run, and c04_ok => faithful-or-refuses is evaluated per case; dump purity by fingerprint before/after."),
-        note=("Trusted: harness/pval_emit.py (object -> pval term), absval/canon, numpy/scipy/json float codecs as opaque tokens, zipfile. D07 (bool keys), D25 (defaultdict keys) C04-F2 (defaultdict subclasses) and C04-F3 (tuple subclasses) repaired in /repo."),
+        note=("Trusted: harness/pval_emit.py (object -> pval term), absval/canon, numpy/scipy/json float codecs as opaque tokens, zipfile. D07 (bool keys), D25 (defaultdict keys) C04-F2 (defaultdict subclasses), C04-F3 (tuple subclasses) and C04-F5 (bytes / bytearray subclasses, numpy.bytes_) repaired in /repo."),
         ref="DESIGN.md section 4 C04"),
     "C05": dict(
         technique='Coq round-trip theorem at the real entry points (containers, dict family, arrays, sparse, dtype, masked, RNGs, partial; arbitrary sharing) + per-case vm_compute of the model round trip + implementation cycles',
